@@ -106,6 +106,29 @@ def one(ctx, a, common, use_counts, mk, reqs, pend, force_no_model=False):
                                               [exp.reshape(-1).tolist()[i] for i in bad]), desc, cls="C01-roundtrip")
     for p in I.wf_problems(ix):
         ctx.oracle_fail("from_array result is not well-formed: " + p, desc, cls="C01-not-wf")
+    # a caller builds several indexes from the same array with the SAME counts / mapping objects (other commons)
+    if counts is not None or mapping is not None:
+        for c2 in ([None] if common is not None else []) + [(int(mapped.max(initial=0)) + 1 if abs(int(mapped.max(initial=0))) < 2**62 else None) if mapping is None else None]:
+            kw2 = dict(kw)
+            kw2.pop("common", None)
+            if c2 is None and common is None:
+                continue
+            if c2 is not None:
+                if mapping is not None:
+                    continue
+                kw2["common"] = c2
+            ctx.hit("same_option_objects_reused")
+            try:
+                out2 = iindex.from_array(a, **kw2).to_array(dtype=np.int64)
+            except Exception as e:
+                if a.size == 0:
+                    continue
+                ctx.oracle_fail("a second from_array with the same counts/mapping objects raised %s: %s" % (
+                    type(e).__name__, str(e)[:80]), dict(desc, second_common=c2), cls="C01-reuse")
+                continue
+            if tuple(out2.shape) != tuple(mapped.shape) or not np.array_equal(out2, mapped):
+                ctx.oracle_fail("a second from_array call given the same counts/mapping objects no longer round-trips "
+                                "(the first call changed them?)", dict(desc, second_common=c2), cls="C01-reuse")
     if force_no_model or a.size > 600:
         return
     req = {"op": "iidx", "m": "from_array", "arr": {"shape": list(a.shape), "data": [int(x) for x in a.reshape(-1).tolist()]},
